@@ -360,6 +360,54 @@ def k_crop(run, case):
     check_copies(run, case, v, exp, idx, True, "crop")
 
 
+def k_crop_dup(run, case):
+    """
+    Time cropping of a trajectory in which several poses share a stamp (the merge of synchronised
+    sensors, a stereo pair): every pose with start <= t <= end is kept, all the twins included.
+    Poses are identified by their (unique) positions.
+    """
+    rng = run.rng(case)
+    n = int(rng.integers(2, {"quick": 80, "thorough": 1500}[run.tier]))
+    arr = make_traj(rng, n, exact=False)
+    base = float(rng.integers(0, 1000)) if rng.random() < .6 else 1.5e9
+    arr["t"] = base + np.sort(rng.integers(0, max(2, n // 2), size=n)).astype(float) * [0.5, 0.1, 1.0][rng.integers(3)]
+    arr["exact"] = False
+    tr, exp, mode = build(arr, rng, True)
+    t = arr["t"]
+    n = len(t)
+
+    def pick():
+        u = rng.random()
+        if u < .3:
+            return None
+        if u < .8:
+            return float(t[rng.integers(n)])  # exactly on a (possibly shared) stamp
+        return float(rng.uniform(float(t[0]) - 1, float(t[-1]) + 1))
+
+    start, end = pick(), pick()
+    if start is not None and end is not None and start > end:
+        start, end = end, start
+    out = contracts.outcome_of(tr.reduce_to_time_range, start, end)
+    s_eff = float(t[0]) if start is None else start
+    e_eff = float(t[-1]) if end is None else end
+    want = [i for i in range(n) if s_eff <= float(t[i]) <= e_eff]
+    run.seen(case, core.digest(t, "crop-dup", start, end), nontrivial=len(want) < n,
+             cls=["crop: poses sharing stamps", "end on a shared stamp" if sum(1 for x in t if x == e_eff) > 1 else "end elsewhere"],
+             sample={"n": n, "start": start, "end": end, "expected_kept": len(want), "outcome": out[0]})
+    if not want:
+        run.hit("crop (shared stamps): empty selection (not judged here)")
+        return
+    if not run.check(out[0] == "ok", "crop (shared stamps) returns", case, "reduce_to_time_range raised %r" % (out[1], ),
+                     key="crop:raised"):
+        return
+    v = contracts.views_consistent(run, case, tr, pfx="views after crop")
+    good = len(v["p"]) == len(want) and core.bits_equal(v["p"], exp["p"][want]) and core.bits_equal(v["t"], exp["t"][want]) \
+        and core.bits_equal(v["T"], exp["T"][want])
+    run.check(good, "crop (shared stamps): exactly start <= t <= end", case,
+              "kept %d poses, expected the %d poses with %r <= t <= %r (poses sharing a stamp all belong to the range)" %
+              (len(v["p"]), len(want), s_eff, e_eff), key="crop:wrong-selection")
+
+
 def k_split(run, case):
     rng = run.rng(case)
     which = case.get("which") or ["time", "distance", "speed", "distance_path"][rng.integers(4)]
@@ -588,7 +636,7 @@ def k_front(run, case):
         shutil.rmtree(work, ignore_errors=True)
 
 
-KINDS = {"downsample": k_downsample, "motion": k_motion, "crop": k_crop, "split": k_split,
+KINDS = {"downsample": k_downsample, "motion": k_motion, "crop": k_crop, "crop_dup": k_crop_dup, "split": k_split,
          "merge": k_merge, "cli": k_cli, "front": k_front}
 
 
@@ -600,6 +648,8 @@ def main(run):
     for kind in ("downsample", "motion", "crop", "split", "merge"):
         for i in run.mine(n if kind != "merge" else n // 3):
             KINDS[kind](run, run.case(kind, i))
+    for i in run.mine(n // 4):
+        k_crop_dup(run, run.case("crop_dup", i))
     for i in run.mine({"quick": 120, "thorough": 3000}[run.tier]):
         k_cli(run, run.case("cli", i, fmt=["tum", "euroc"][i % 2], force_options=["crop"]))
     for i in run.mine({"quick": 60, "thorough": 1500}[run.tier]):
@@ -616,7 +666,7 @@ def main(run):
              "downsample: last pose kept", "downsample: N<1 refused",
              "motion filter: kept => threshold reached",
              "motion filter: dropped => no threshold reached", "motion filter: exact-grid cases",
-             "crop: exactly start <= t <= end", "crop: start > end refused",
+             "crop: exactly start <= t <= end", "crop (shared stamps): exactly start <= t <= end", "crop: start > end refused",
              "split: parts concatenate to the input", "split: cut => step exceeds threshold",
              "split: no cut => step within threshold",
              "split: step == threshold exactly observed (not cut)",
